@@ -78,7 +78,7 @@ theorem eq_foldl_min (L : List ℝ) (d v : ℝ) (h1 : v ≤ d) (h2 : ∀ y ∈ L
 
 /-- `min` on `ℝ` is a semilattice -/
 theorem semiLat_min : SemiLat (min : ℝ → ℝ → ℝ) :=
-  ⟨min_comm, min_assoc, min_self⟩
+  ⟨fun _ _ _ _ => trivial, fun a b _ _ => min_comm a b, fun a b c _ _ _ => min_assoc a b c, fun a _ => min_self a⟩
 
 /-! ## the tree search of one chunk, exact arithmetic -/
 
